@@ -187,3 +187,26 @@ def unit_history(rng, n, ctx):
     for s in list(live):
         ops.append("CLOSE %d" % s)
     return ops
+
+
+def judge_resolving(ctx, cmd, line):
+    rep = {"harness": "sys_life", "ops": [cmd], "impl_out": line}
+    ctx.evaluations += 1
+    if line.startswith("skip"):
+        ctx.notes.append("sys_life %s: %s" % (cmd, line))
+        return
+    if line.startswith(("crash", "fail")):
+        ctx.violation("sys_life:resolving:" + line.split()[0], "close during name resolution died: %s -> %s" % (cmd, line), rep)
+        return
+    f = fields(line)
+    proto = cmd.split()[1]
+    ctx.nontriv(("resolving", proto, f["made"], f["fds"]))
+    a, b = f["fds"].split("/")
+    if a != b:
+        ctx.violation("sys_life:resolving:fd-leak:" + proto, "closing sockets whose DNS queries are still outstanding leaves descriptors open (%s before, %s after): %s" % (a, b, line), rep)
+    if f["heap_leak"] != "0":
+        ctx.violation("sys_life:resolving:heap-leak:" + proto, "closing sockets whose DNS queries are still outstanding leaks heap: " + line, rep)
+    child = int(f["child_fds"].split("(")[0])
+    if child >= 0 and child > int(a):
+        ctx.violation("sys_life:resolving:child-fds-left:" + proto, "xcm_cleanup in a forked child during name resolution leaves the resolver's descriptors open in the child: " + line, rep)
+
